@@ -139,7 +139,12 @@ func runWriter(toks []string) (string, string) {
 			return infoID(infoCount), nil
 		})),
 	}
+	// the in-progress suffix is configurable: derived from the case so that the case format (and
+	// the model, which only sees final names) stays as it is
+	openSuffix := []string{".open", ".open", ".lock", ".incomplete", ".w"}[nrec%5]
+	opts = append(opts, gowarc.WithOpenFileSuffix(openSuffix))
 	if dup {
+		openSuffix = ""
 		opts = append(opts, gowarc.WithFileNameGenerator(&gowarc.PatternNameGenerator{Directory: out, Prefix: "v", Pattern: "%{prefix}s-0001.%{ext}s", Extension: "warc"}),
 			gowarc.WithOpenFileSuffix(""))
 	}
@@ -218,7 +223,7 @@ func runWriter(toks []string) (string, string) {
 	}
 	seen := map[string]bool{}
 	for _, nme := range names {
-		if strings.HasSuffix(nme, ".open") {
+		if openSuffix != "" && strings.HasSuffix(nme, openSuffix) {
 			return observation, "FAIL:open-file-left:" + nme + " still carries the in-progress suffix after Close"
 		}
 		if compress != strings.HasSuffix(nme, ".gz") || !strings.HasSuffix(strings.TrimSuffix(nme, ".gz"), ".warc") {
